@@ -37,6 +37,9 @@ type Case struct {
 	// disagreement (cheap oracles such as round trips).
 	Direct func() string
 	Sample interface{}
+	// Fallback: a second request for the same input through the decoded-packets
+	// route, asked when the model answers `unmodelled` to Line.
+	Fallback func() string
 }
 
 type Disagreement struct {
@@ -97,6 +100,20 @@ func runCases(pool *model.Pool, workers int, gen func(emit func(Case)), st *Stat
 					st.Samples = append(st.Samples, c.Sample)
 				}
 				st.mu.Unlock()
+				if strings.HasPrefix(ans, "unmodelled") {
+					st.mu.Lock()
+					st.ByBranch[c.Stream+"/route=decoded-packets"]++
+					st.mu.Unlock()
+					if c.Fallback != nil {
+						if l2 := c.Fallback(); l2 != "" {
+							c.Line = l2
+							ans, err = p.Ask(l2)
+							if err != nil {
+								ans = "model-crash " + err.Error()
+							}
+						}
+					}
+				}
 				if strings.HasPrefix(ans, "unmodelled") {
 					st.mu.Lock()
 					st.Unmodelled++
